@@ -288,7 +288,7 @@ func (c *Ctx) tracerAgreement(rule string) {
 			var fwd []*ssa.Call
 			for _, cs := range engine.Calls(m) {
 				cc := cs.Common()
-				if cc.IsInvoke() && cc.Method.Name() == engine.ShortName(m) {
+				if cc.IsInvoke() && cc.Method.Name() == m.Name() {
 					if call, ok := cs.Instr.(*ssa.Call); ok {
 						fwd = append(fwd, call)
 					}
